@@ -753,9 +753,18 @@ func c05GenScn(t *rapid.T, o c05GenOpt, excludedCase func(id string)) *c05Scn {
 		must = []int{1, 16, 17}
 	}
 	s.First = len(first)
-	tail := c05Fill(seed^0xabcdef, c05GenSize(t, "c2uTail", o.Big))
+	capN := func(n int) int { // tiny socket buffers: enough for many partial rounds, not minutes of them
+		switch {
+		case s.SockBuf > 0 && s.SockBuf <= 4096:
+			return min(n, 48<<10)
+		case s.SockBuf > 0 && s.SockBuf <= 16384:
+			return min(n, 128<<10)
+		}
+		return n
+	}
+	tail := c05Fill(seed^0xabcdef, capN(c05GenSize(t, "c2uTail", o.Big)))
 	s.C2U = append(append([]byte{}, first...), tail...)
-	s.U2C = c05Fill(seed^0x123457, c05GenSize(t, "u2c", o.Big))
+	s.U2C = c05Fill(seed^0x123457, capN(c05GenSize(t, "u2c", o.Big)))
 
 	window := s.SniffT
 	if s.Stack == c05StackPort53 {
@@ -1452,9 +1461,11 @@ func c05Diverge(got, want []byte) string {
 }
 
 type c05Verdict struct {
-	fail    string
-	classes []string
-	nt      bool
+	// loopback only: the case could not be judged without depending on real time
+	inconclusive string
+	fail         string
+	classes      []string
+	nt           bool
 }
 
 func c05IsTimeout(err error) bool {
@@ -1514,22 +1525,52 @@ func c05Judge(r *c05Result, o c05GenOpt, exact bool) c05Verdict {
 			r.srv.sent, len(s.U2C), len(r.srv.recv), r.srv.eof, r.srv.eofAt.Sub(r.t0), r.srv.rerr, r.srv.werr, r.srv.aborted)
 		return v
 	}
+	hardFailf := failf
+	// Loopback runs use the real clock, and the relay's 10 s half-close grace is real
+	// time there. No verdict may depend on how fast the machine is, so (loopback only):
+	//  - if the relay ended >= 10 s after the harness sent the first FIN, a grace expiry
+	//    may have cut the slower direction rightfully (the relay sees the FIN no earlier
+	//    than it was sent, so a rightful cut always satisfies this inequality on the
+	//    monotonic clock): everything except stream integrity is INCONCLUSIVE;
+	//  - the watchdog that ends a case which does not finish is INCONCLUSIVE as well.
+	// The timing rules themselves are asserted exactly on the virtual clock instead.
+	if !exact {
+		var firstFin time.Time
+		for _, p := range []*c05Peer{r.cli, r.srv} {
+			if p.finDone && (firstFin.IsZero() || p.finAt.Before(firstFin)) {
+				firstFin = p.finAt
+			}
+		}
+		graceMaybe := !firstFin.IsZero() && d.endAt.Sub(firstFin) >= relayHalfCloseTimeout
+		failf = func(f string, a ...any) c05Verdict {
+			switch {
+			case r.hung:
+				v.inconclusive = "watchdog"
+			case graceMaybe:
+				v.inconclusive = "realtime_grace"
+			default:
+				return hardFailf(f, a...)
+			}
+			v.classes = append(v.classes, "inconclusive_"+v.inconclusive)
+			return v
+		}
+	}
 	if d.panicked != "" {
-		return failf("panic on the relay path: %s", d.panicked)
+		return hardFailf("panic on the relay path: %s", d.panicked)
 	}
 	if d.dnsHandled {
 		cls("dns_query_consumed")
 		return v
 	}
-	if r.hung {
-		return failf("the connection neither completed nor was torn down (hang)")
-	}
 	// integrity, unconditionally: what arrived is a prefix of what was sent
 	if !bytes.HasPrefix(s.C2U, r.srv.recv) {
-		return failf("client->upstream stream altered: %s", c05Diverge(r.srv.recv, s.C2U))
+		return hardFailf("client->upstream stream altered: %s", c05Diverge(r.srv.recv, s.C2U))
 	}
 	if !bytes.HasPrefix(s.U2C, r.cli.recv) {
-		return failf("upstream->client stream altered: %s", c05Diverge(r.cli.recv, s.U2C))
+		return hardFailf("upstream->client stream altered: %s", c05Diverge(r.cli.recv, s.U2C))
+	}
+	if r.hung {
+		return failf("the connection neither completed nor was torn down (hang)")
 	}
 	// harmless detection: the relay phase begins within the detection window(s)
 	if exact {
